@@ -42,5 +42,7 @@ Lemma store_primitives : memory_store_has_Incr_and_SetNX = true /\ hybrid_index_
   (* C19_delete_success_frees_name_under_faults needs the index entry to be deleted before the record *)
   implb delete_is_guarded delete_index_before_record = true /\
   (* C19_faulted_lookup_is_rejected: a failed repository read ends the lookup *)
-  lookup_error_stops = true.   (* since d88dca0 hybrid.Storage.Incr delegates to its cache tier's atomic IncrBy *)
+  lookup_error_stops = true /\
+  (* C19_update_never_changes_owner: UpdateMapping compares the payload's client id with the stored one *)
+  update_checks_client = true.   (* since d88dca0 hybrid.Storage.Incr delegates to its cache tier's atomic IncrBy *)
 Proof. vm_compute. auto 10. Qed.
